@@ -589,6 +589,17 @@ impl<'a> Gen<'a> {
                     (Stmt::Output(n, None), "output-name")
                 } else {
                     let n = if self.rng.chance(3, 4) { self.free_name().unwrap_or_else(|| self.any_name()) } else { self.any_name() };
+                    if self.rng.chance(1, 3) {
+                        // the declared value itself binds another name (at any evaluated position)
+                        let m = if self.rng.chance(3, 4) { self.free_name().unwrap_or_else(|| self.any_name()) } else { self.any_name() };
+                        let inner = assign(&m, self.data(1).0);
+                        let e = self.in_position(inner);
+                        if m != n {
+                            self.bound.entry(m).or_insert(Ty::Num);
+                        }
+                        self.bound.entry(n.clone()).or_insert(Ty::Num);
+                        return (Stmt::Output(n, Some(e)), "output-assign-nested");
+                    }
                     let e = if self.rng.chance(1, 4) { self.lambda(Some(&n)) } else { self.data(0).0 };
                     let ty = if matches!(e, E::Lam(..)) { Ty::Fun } else { Ty::Num };
                     self.bound.entry(n.clone()).or_insert(ty);
@@ -988,7 +999,7 @@ impl Model {
             snapshots: vec![],
         };
         m.tc.insert("inputs".into());
-        let o = m.observe(sess, false);
+        let o = m.observe(sess, false, false);
         m.inputs0 = o.keys.get("inputs").cloned().flatten();
         m.last = o;
         m
@@ -998,7 +1009,7 @@ impl Model {
         self.hasher
     }
 
-    fn observe(&mut self, sess: &Session, with_probes: bool) -> Obs {
+    fn observe(&mut self, sess: &Session, with_probes: bool, heavy: bool) -> Obs {
         let mut o = Obs::default();
         if sess.dead.get() {
             return self.last.clone();
@@ -1010,13 +1021,13 @@ impl Model {
         // a name that is not a key of the root environment must not evaluate at top level
         // (do-block locals, parameters and captured names of finished calls)
         for n in NAMES.iter().chain(LOCAL_NAMES.iter()) {
-            if !root.contains_key(*n) {
+            if with_probes && !root.contains_key(*n) {
                 let r = sess.probe(n);
                 self.stats.inc("probes");
                 o.probes.insert(("<unbound>".to_string(), n.to_string()), (if r.0 == Status::Ok { Status::Ok } else { Status::Err }, None));
             }
         }
-        if with_probes {
+        if heavy {
             for (src, want) in SCOPE_SENTINELS {
                 let got = sess.probe(src);
                 self.stats.inc("probes");
@@ -1042,7 +1053,7 @@ impl Model {
         // the value observed through a bound name is the same in whatever context it is read:
         // inside a function, a do-block, a callback, a conditional, a record written with the
         // name as its key, a function stored under that key
-        if with_probes {
+        if heavy {
             for (k, _) in &root {
                 if k == "inputs" || !NAMES.contains(&k.as_str()) {
                     continue;
@@ -1178,14 +1189,15 @@ impl Model {
     }
 
     /// Called after statement `gi` has run (or been refused by the parser).
-    pub fn step(&mut self, sess: &Session, gi: usize, s: &SStmt, o: &Outcome, force_probes: bool) {
+    pub fn step(&mut self, sess: &Session, gi: usize, s: &SStmt, o: &Outcome, force_probes: bool, is_last: bool) {
+        let heavy = self.probe_every || is_last;
         self.hasher = mix(self.hasher, fnv64(format!("{}|{}|{:?}|{}", gi, o.status.short(), o.canon, o.steps).as_bytes()));
         if o.status == Status::Panic || o.status == Status::NotRun {
             self.stats.inc("sut_panics");
             return;
         }
         let before = self.last.clone();
-        let after = self.observe(sess, self.probe_every || force_probes);
+        let after = self.observe(sess, self.probe_every || force_probes, heavy);
         for (k, v) in &after.keys {
             self.hasher = mix(self.hasher, fnv64(format!("{}={:?}", k, v).as_bytes()));
         }
@@ -1342,7 +1354,7 @@ impl Model {
             self.tc.insert(k);
         }
         // first observation (with probes for names that just became tc)
-        let after2 = if had_new_tc { self.observe(sess, self.probe_every || force_probes) } else { after };
+        let after2 = if had_new_tc { self.observe(sess, self.probe_every || force_probes, heavy) } else { after };
         if let Some(m) = after2.shadow_mismatch.first() {
             self.fail("caller-scope-seen-by-closed-function", gi, m.clone());
         }
@@ -1429,18 +1441,18 @@ pub fn execute(sc: &Scenario) -> Exec {
             let outs = sess.eval_source(&src, &mut |i| cfg_for(&sc, i), &mut |s, i, o| {
                 if i < n {
                     let force = faulted.contains(&i) || i + 1 == n;
-                    model_cell.borrow_mut().step(s, i, &sc.stmts[i], o, force);
+                    model_cell.borrow_mut().step(s, i, &sc.stmts[i], o, force, i + 1 == n);
                 }
             });
             drop(model_cell);
             if outs.len() == 1 && outs[0].status == Status::ParseErr && n != 1 {
                 // the whole source was refused: nothing ran; every statement "fails to parse"
                 for i in 0..n {
-                    model.step(&sess, i, &sc.stmts[i], &outs[0], i + 1 == n);
+                    model.step(&sess, i, &sc.stmts[i], &outs[0], i + 1 == n, i + 1 == n);
                     outcomes.push(outs[0].clone());
                 }
             } else if outs.len() == 1 && outs[0].status == Status::ParseErr {
-                model.step(&sess, 0, &sc.stmts[0], &outs[0], true);
+                model.step(&sess, 0, &sc.stmts[0], &outs[0], true, true);
                 outcomes = outs;
             } else {
                 if outs.len() != n {
@@ -1454,7 +1466,7 @@ pub fn execute(sc: &Scenario) -> Exec {
                 let force = faulted.contains(&i) || i + 1 == n;
                 let model_cell = std::cell::RefCell::new(&mut model);
                 let outs = sess.eval_source(&src, &mut |_| cfg_for(&sc, i), &mut |s, _j, o| {
-                    model_cell.borrow_mut().step(s, i, &sc.stmts[i], o, force);
+                    model_cell.borrow_mut().step(s, i, &sc.stmts[i], o, force, i + 1 == n);
                 });
                 drop(model_cell);
                 if outs.is_empty() {
@@ -1476,7 +1488,7 @@ pub fn execute(sc: &Scenario) -> Exec {
                     panic!("HARNESS: statement source yielded {} statements: {:?}", outs.len(), src);
                 }
                 if outs[0].status == Status::ParseErr {
-                    model.step(&sess, i, &sc.stmts[i], &outs[0], force);
+                    model.step(&sess, i, &sc.stmts[i], &outs[0], force, i + 1 == n);
                 }
                 outcomes.push(outs[0].clone());
             }
